@@ -314,11 +314,11 @@ def opt_decision(ctx, lexpr, pt):
                 return Adt(adt, v["idx"], [], name)
         raise KeyError(name)
 
-    texts = [b"nil", b"t", b"x", b"nil:", b"t:", b"x:", b"nilx", b"tt", b"n", b"nil::"]
+    texts = [b"nil", b"t", b"x", b"nil:", b"t:", b"x:", b"nilx", b"tt", b"n", b"nil::", b"NIL", b"Nil", b"T"]
     flags = (0, 2, 5, 7)
     if ctx.tier == "thorough":
         # every combination of the three keyword spellings, and more texts around the two special names
-        texts += [b"Nil", b"NIL", b"T", b"ni", b"nill", b"t:t", b":", b"a:b", b"nil:x", b"tnil", b"x::", b"nil-", b"t1"]
+        texts += [b"ni", b"nill", b"t:t", b":", b"a:b", b"nil:x", b"tnil", b"x::", b"nil-", b"t1", b"nIl", b"NIL:"]
         texts = [x for x in texts if x[:1].isalpha()]
         flags = tuple(range(8))
     n = 0
@@ -372,6 +372,10 @@ def opt_decision(ctx, lexpr, pt):
                                 if ob is not None:
                                     eq = bytes(s0.b) == ob
                                     return ("value", int(eq if "eq" == t["callee"].get("method") else not eq))
+                            if p.endswith("<impl str>::eq_ignore_ascii_case") and len(d) > 1 and isinstance(d[1], (Bytes, Str)):
+                                return ("value", int(bytes(s0.b).lower() == bytes(d[1].b).lower()))
+                            if p.endswith("<impl str>::to_ascii_lowercase") or p.endswith("<impl str>::to_lowercase"):
+                                return ("value", Str(bytes(s0.b).lower()))
                             if p.endswith("<impl str>::len") or p.endswith("String::len"):
                                 return ("value", len(s0.b))
                             if p.endswith("<impl str>::ends_with") and len(d) > 1 and isinstance(d[1], (Bytes, Str)):
